@@ -20,10 +20,12 @@ import (
 	"sort"
 	"strings"
 	"sync"
+	"time"
 
 	"github.com/evanw/esbuild/pkg/api"
 
 	"verifharness/core"
+	"verifharness/nodex"
 	"verifharness/tlcrun"
 )
 
@@ -387,7 +389,7 @@ func evalTsconfig(r *core.Run, cases []*tcCase, replay bool) {
 		items[i] = it
 	})
 	r.Logf("tsconfig: builds done")
-	outs := runNodeItems(r, items)
+	outs := tcRunNode(r, items)
 	r.Logf("tsconfig: node done")
 	perField, perShape, perDepth := map[string]int{}, map[string]int{}, map[string]int{}
 	var builds, runs, notJudged int64
@@ -502,7 +504,7 @@ func evalTsconfig(r *core.Run, cases []*tcCase, replay bool) {
 					c.Resolved["experimentalDecorators"], ob.Dec, vr, treeText, ch.Out), det(map[string]interface{}{"variant": vr.String(), "output": ch.Out, "observed": got.Out}))
 			}
 		}
-		if c.Nontrivial && samples < 3 && (len(c.Levels) >= 3 || replay) && (i%(len(cases)/3+1) == 1 || replay) {
+		if c.Nontrivial && samples < 3 && (replay || (len(c.Levels) >= 3 && i >= samples*(len(cases)/3))) {
 			samples++
 			r.Sample(map[string]interface{}{"part": "tsconfig", "tree": tree, "links": c.Links, "resolved": c.Resolved, "strict": c.Strict, "define": c.Define,
 				"output": res.chain[(c.Code%2)*2].Out, "observed": func() string {
@@ -525,6 +527,33 @@ func evalTsconfig(r *core.Run, cases []*tcCase, replay bool) {
 	r.Set("tsconfig_link_shapes", perShape)
 	r.Set("tsconfig_chain_depths", perDepth)
 	r.Logf("tsconfig: %d chains, %d builds, %d node runs, shapes %v", len(cases), builds, runs, perShape)
+}
+
+// tcRunNode: like runNodeItems with smaller batches (the programs are tiny, a fresh V8 context per program dominates)
+func tcRunNode(r *core.Run, items []nodeItem) map[string][]nodeOut {
+	const batch = 150
+	nb := (len(items) + batch - 1) / batch
+	out := map[string][]nodeOut{}
+	var mu sync.Mutex
+	core.Parallel(nb, 6, func(b int) {
+		lo, hi := b*batch, (b+1)*batch
+		if hi > len(items) {
+			hi = len(items)
+		}
+		var res struct {
+			Results []nodeRes `json:"results"`
+		}
+		if err := nodex.Run(r, "run_c06.js", map[string]interface{}{"items": items[lo:hi]}, &res, 10*time.Minute, ""); err != nil {
+			r.Infra("run_c06.js (tsconfig) batch %d: %v", b, err)
+			return
+		}
+		mu.Lock()
+		for _, x := range res.Results {
+			out[x.ID] = x.Outs
+		}
+		mu.Unlock()
+	})
+	return out
 }
 
 func tcTreeText(tree map[string]string) string {
